@@ -51,3 +51,4 @@ Definition marked (old new : list N) : bool :=
     longer chain could be obtained *)
 Definition add_spec (alloc_ok : bool) (old msg new : list N) : bool :=
   list_eqb new (chain_step old msg) || (negb alloc_ok && marked old new).
+
